@@ -1,20 +1,29 @@
 #!/usr/bin/env python3
-"""Translate the two base64 tables of /repo/src/vlq.rs into Coq (Model/Gen_B64.v)."""
-import re, sys
-src = open(sys.argv[1]).read()
-m = re.search(r'const B64_CHARS: &\[u8\] = b"([^"\\]+)";', src)
-chars = m.group(1)
-m = re.search(r'const B64: \[i8; 256\] = \[(.*?)\];', src, re.S)
-items = [x.strip() for x in m.group(1).split(',') if x.strip()]
-vals = []
-for it in items:
-    if not re.fullmatch(r'[-+ 0-9]+', it):
-        sys.exit("gen_b64: unsupported table entry %r" % it)
-    vals.append(eval(it))          # constant integer expressions only, e.g. `-1 - 1`
+"""Translate the two base64 tables of /repo/src/vlq.rs into Coq (Model/Gen_B64.v).
+The tables are found as the constants B64_CHARS and B64, whatever their layout, comments, attributes or literal spelling
+(constant integer expressions such as `-1 - 1`, hex, named constants); anything else is a lost anchor (exit 2)."""
+import sys, os
+sys.path.insert(0, os.path.dirname(os.path.abspath(__file__)))
+from rustconst import File, Unsupported, split_args
+def lost(what):
+    sys.stderr.write("gen_b64: anchor not found: %s\n" % what); sys.exit(2)
+try:
+    f = File(open(sys.argv[1], encoding='utf-8').read())
+    if 'B64_CHARS' not in f.consts: lost('B64_CHARS')
+    chars = f.eval_bytes(f.consts['B64_CHARS'])
+    if 'B64' not in f.consts: lost('B64')
+    t = f.consts['B64']
+    if not t or t[0][1] != '[' or t[-1][1] != ']': lost('B64 is not an array literal')
+    inner = t[1:-1]
+    # `[v; n]` repeat form is not a table
+    if any(v == ';' for _, v in inner): lost('B64 is a repeat expression')
+    vals = [f.eval_int(a) for a in split_args(inner)]
+except Unsupported as e:
+    lost('unsupported constant expression: %s' % e)
 if len(vals) != 256:
-    sys.exit("gen_b64: expected 256 entries, found %d" % len(vals))
+    lost("expected 256 entries in B64, found %d" % len(vals))
 z = lambda v: ("(%d)" % v) if v < 0 else str(v)
 out = "(* GENERATED from src/vlq.rs by gen/gen_b64.py -- do not edit *)\nFrom SM Require Import Model.Base.\n"
-out += "Definition B64_CHARS : list Z := [" + "; ".join(str(ord(c)) for c in chars) + "].\n"
+out += "Definition B64_CHARS : list Z := [" + "; ".join(str(c) for c in chars) + "].\n"
 out += "Definition B64 : list Z := [" + "; ".join(z(v) for v in vals) + "].\n"
 open(sys.argv[2], 'w').write(out)
